@@ -19,6 +19,7 @@ import KestrelProofs.Strict
 import KestrelProps.C01
 import KestrelProps.C10dec
 import KestrelProps.C10enc
+import KestrelProps.C12
 namespace Kestrel
 open Cli Generated
 open Kestrel.Keyring (Str utf8)
@@ -337,5 +338,219 @@ theorem C13_untouched_keygen (P : Prims) (rnd : Rand) (w : World) (outf : Option
           split at hx
           · split at hx <;> exact hx rfl
           · exact hx rfl
+
+/-! ## non-vacuity: the structurally built world of `C12Ex` (keyring file `kr` with the key `alice`, input file `in`, the
+    password in the environment) -/
+
+namespace C13Ex
+open C12Ex
+
+/-- an existing output file whose content must survive every failure -/
+def worldOut (input : Bytes) : World := (world input []).setFile (str "out") [42]
+
+theorem worldOut_file_in (input : Bytes) : (worldOut input).file (str "in") = some input := rfl
+theorem worldOut_file_kr (input : Bytes) : (worldOut input).file (str "kr") = some (utf8 krText) := rfl
+theorem worldOut_openKeyring (input : Bytes) : openKeyring (worldOut input) (some (str "kr")) = .ok ks :=
+  openKeyring_of (worldOut_file_kr input) krText_parse
+theorem worldOut_unlock (input : Bytes) : unlockNamed (worldOut input) ks name true = .ok (skA, skA) :=
+  unlockNamed_of getKey_ks (Keyring.decodePk_encodePk skA skA_len) rfl (pw := utf8 pwS) rfl
+    (Keyring.unlock_lock skA (utf8 pwS) salt skA_len salt_len)
+
+/-! early causes -/
+
+/-- the input file does not exist -/
+theorem err_noInput (input : Bytes) :
+    (runDecrypt toyPrims (worldOut input) (some (str "nope")) name (some (str "out")) (some (str "kr")) true).err = some .noInput := rfl
+
+example (input : Bytes) := C13_untouched_decrypt toyPrims (worldOut input) (some (str "nope")) name (some (str "out"))
+  (some (str "kr")) true .noInput (err_noInput input) (by simp [earlyCauses])
+
+/-- input and output are the same file -/
+example (input : Bytes) := C13_untouched_decrypt toyPrims (worldOut input) (some (str "in")) name (some (str "in"))
+  (some (str "kr")) true .sameFile rfl (by simp [earlyCauses])
+
+/-- no such key in the keyring -/
+theorem err_keyNotFound (input : Bytes) :
+    (runDecrypt toyPrims (worldOut input) (some (str "in")) (str "bob") (some (str "out")) (some (str "kr")) true).err =
+      some .keyNotFound := by
+  have hu : unlockNamed (worldOut input) ks (str "bob") true = .error .keyNotFound := by
+    have : Keyring.getKey ks (str "bob") = none := by
+      unfold Keyring.getKey ks
+      rw [List.find?_cons_of_neg (by decide)]
+      rfl
+    simp only [unlockNamed, this]
+  simp only [runDecrypt, show sameFile (some (str "in")) (some (str "out")) = false by decide,
+    openInput_file (worldOut_file_in input), worldOut_openKeyring, hu, Bool.false_eq_true, if_false, fail]
+
+example (input : Bytes) := C13_untouched_decrypt toyPrims (worldOut input) (some (str "in")) (str "bob") (some (str "out"))
+  (some (str "kr")) true .keyNotFound (err_keyNotFound input) (by simp [earlyCauses])
+
+/-- no `--env-pass`: no password -/
+example (input : Bytes) : (runDecrypt toyPrims (worldOut input) (some (str "in")) name (some (str "out")) (some (str "kr")) false).world =
+    worldOut input := by
+  have hu : unlockNamed (worldOut input) ks name false = .error .noPassword := by
+    simp only [unlockNamed, getKey_ks, Keyring.decodePk_encodePk skA skA_len, askPass, Bool.false_eq_true, if_false]
+  have herr : (runDecrypt toyPrims (worldOut input) (some (str "in")) name (some (str "out")) (some (str "kr")) false).err =
+      some .noPassword := by
+    simp only [runDecrypt, show sameFile (some (str "in")) (some (str "out")) = false by decide,
+      openInput_file (worldOut_file_in input), worldOut_openKeyring, hu, Bool.false_eq_true, if_false, fail]
+  exact (C13_untouched_decrypt toyPrims _ _ _ _ _ _ .noPassword herr (by simp [earlyCauses])).2.1
+
+example (P : Prims) (w : World) (inf : Option Str) (to : Str) (outf kr : Option Str) (e : Bool) (c : Err)
+    (hc : (runDecrypt P w inf to outf kr e).err = some c) := C13_decrypt_causes P w inf to outf kr e c hc
+
+/-! a library failure before the first release: the existing output file keeps its content -/
+
+/-- a file of three bytes -/
+theorem short_dec : keyDecrypt toyPrims skA skA [1,2,3] = ([], .ioRead, none) := by decide
+
+example : runDecrypt toyPrims (worldOut [1,2,3]) (some (str "in")) name (some (str "out")) (some (str "kr")) true =
+      fail (worldOut [1,2,3]) (.crypto .ioRead) ∧
+    (runDecrypt toyPrims (worldOut [1,2,3]) (some (str "in")) name (some (str "out")) (some (str "kr")) true).world.file (str "out") =
+      some [42] := by
+  obtain ⟨_, h, _⟩ := C13_no_release_no_touch toyPrims (worldOut [1,2,3]) (some (str "in")) name (some (str "out"))
+    (some (str "kr")) true (by decide) (openInput_file (worldOut_file_in _)) (worldOut_openKeyring _) (worldOut_unlock _) short_dec
+  rw [h]
+  exact ⟨rfl, World.file_setFile _ _ _⟩
+
+/-- the same through the sink-level statement -/
+example := C13_untouched_decrypt_crypto toyPrims (worldOut [1,2,3]) (some (str "in")) name (some (str "out"))
+  (some (str "kr")) true (by decide) (openInput_file (worldOut_file_in _)) (worldOut_openKeyring _) (worldOut_unlock _)
+  (r := (keyDecryptIO toyPrims skA skA { inp := [1,2,3] } {}).1) (s' := (keyDecryptIO toyPrims skA skA { inp := [1,2,3] } {}).2.1)
+  (k := (keyDecryptIO toyPrims skA skA { inp := [1,2,3] } {}).2.2.1) (snd := (keyDecryptIO toyPrims skA skA { inp := [1,2,3] } {}).2.2.2)
+  rfl (by decide) (by decide)
+
+/-- the genuine small file cut inside its first record (132 header bytes + 20): nothing released -/
+set_option maxRecDepth 20000 in
+theorem cut_dec : keyDecrypt toyPrims skA skA (smallCt.take 152) = ([], .ioRead, none) := by decide
+
+example : (runDecrypt toyPrims (worldOut (smallCt.take 152)) (some (str "in")) name (some (str "out")) (some (str "kr")) true).world =
+    worldOut (smallCt.take 152) :=
+  (C13_no_release_no_touch toyPrims _ (some (str "in")) name (some (str "out")) (some (str "kr")) true (by decide)
+    (openInput_file (worldOut_file_in _)) (worldOut_openKeyring _) (worldOut_unlock _) cut_dec).2.2
+
+/-- a corrupted first record (one ciphertext byte flipped): authentication fails, nothing released -/
+def corrupt : Bytes := smallCt.take 150 ++ [0xFF] ++ smallCt.drop 151
+set_option maxRecDepth 20000 in
+theorem corrupt_dec : (keyDecrypt toyPrims skA skA corrupt).1 = [] := by decide
+
+example := C13_no_release_no_touch_any toyPrims (worldOut corrupt) (some (str "in")) name (some (str "out")) (some (str "kr")) true
+  (by
+    intro input ks' sk pk hi hk hu
+    rw [openInput_file (worldOut_file_in _)] at hi
+    rw [worldOut_openKeyring] at hk
+    cases hi; cases hk
+    rw [worldOut_unlock] at hu
+    cases hu
+    exact corrupt_dec)
+
+/-- (a) header causes: the hypotheses are satisfiable -/
+example : (keyDecrypt toyPrims skA skA [1,2,3]).1 = [] ∧ (keyDecrypt toyPrims skA skA [1,2,3]).2.1 ≠ .ok :=
+  C13_no_release_header toyPrims skA skA [1,2,3] (Or.inl (by decide))
+/-- a password-mode file given to `decrypt` -/
+example : (keyDecrypt toyPrims skA skA C10decEx.file).1 = [] ∧ (keyDecrypt toyPrims skA skA C10decEx.file).2.1 ≠ .ok :=
+  C13_no_release_header toyPrims skA skA C10decEx.file (Or.inr (Or.inl (by decide)))
+
+/-- (b) first-record causes on the cut file: header intact, record 0 too short -/
+set_option maxRecDepth 20000 in
+example : ∃ pk spk hh, Noise.readMessage toyPrims ((smallCt.take 152).take 4) skA skA (((smallCt.take 152).drop 4).take handshakeLen) =
+      .ok (pk, spk, hh) ∧ pk.length = 32 ∧ validFileFormat ((smallCt.take 152).take 4) = some true ∧
+    parse1 toyPrims.aead (toyPrims.hkdfFile pk hh) [] chunkSize 0 (((smallCt.take 152).drop 4).drop handshakeLen) = .fail .ioRead := by
+  refine ⟨pK, skA, _, rfl, by decide, by decide, by decide⟩
+
+/-! released chunks, then a failure: exactly the released chunks are in the output file -/
+
+/-- the genuine small file followed by one byte: chunk `[7,8]` is released, then the trailing data is detected -/
+set_option maxRecDepth 20000 in
+theorem trail_dec : keyDecrypt toyPrims skA skA (smallCt ++ [99]) = ([[7,8]], .unexpectedData, none) := by decide
+
+example : runDecrypt toyPrims (worldOut (smallCt ++ [99])) (some (str "in")) name (some (str "out")) (some (str "kr")) true =
+      { exit := 1, world := (worldOut (smallCt ++ [99])).setFile (str "out") [7,8], stdout := [],
+        err := some (.crypto .unexpectedData) } :=
+  (C13_prefix toyPrims _ (some (str "in")) name (str "out") (some (str "kr")) true (by decide)
+    (openInput_file (worldOut_file_in _)) (worldOut_openKeyring _) (worldOut_unlock _) trail_dec (by simp) (by simp)).1
+
+/-- success: the old content `[42]` of `out` is replaced by the plaintext -/
+example : (runDecrypt toyPrims (worldOut smallCt) (some (str "in")) name (some (str "out")) (some (str "kr")) true).exit = 0 ∧
+    (runDecrypt toyPrims (worldOut smallCt) (some (str "in")) name (some (str "out")) (some (str "kr")) true).world.file (str "out") =
+      some [7,8,9] := by
+  obtain ⟨h1, _, h3, _⟩ := C13_success_creates toyPrims (worldOut smallCt) (some (str "in")) name (str "out") (some (str "kr")) true
+    (by decide) (openInput_file (worldOut_file_in _)) (worldOut_openKeyring _) (worldOut_unlock _) smallCt_dec
+  exact ⟨h1, h3⟩
+
+/-- success with an EMPTY plaintext: one empty chunk, one flush — the file is created (and an old one emptied) -/
+def emptyCt : Bytes := (keyEncrypt toyPrims skA skA skA eK eK pK [[]]).1
+set_option maxRecDepth 20000 in
+theorem emptyCt_dec : keyDecrypt toyPrims skA skA emptyCt = ([[]], .ok, some skA) := by decide
+
+example : (runDecrypt toyPrims (worldOut emptyCt) (some (str "in")) name (some (str "out")) (some (str "kr")) true).world.file (str "out") =
+    some [] :=
+  (C13_success_creates toyPrims (worldOut emptyCt) (some (str "in")) name (str "out") (some (str "kr")) true
+    (by decide) (openInput_file (worldOut_file_in _)) (worldOut_openKeyring _) (worldOut_unlock _) emptyCt_dec).2.2.1
+
+/-! password mode -/
+
+def pworldOut (input : Bytes) : World := (pworld input).setFile (str "out") [42]
+theorem pworldOut_pass (input : Bytes) : askPass (pworldOut input) true = .ok C10decEx.pw := rfl
+
+example (input : Bytes) := C13_untouched_pass_decrypt toyPrims (pworldOut input) (some (str "in")) (some (str "out")) false
+  .noPassword rfl (by simp [earlyCauses])
+example (P : Prims) (w : World) (inf outf : Option Str) (e : Bool) (c : Err)
+    (hc : (runPassDecrypt P w inf outf e).err = some c) := C13_pass_decrypt_causes P w inf outf e c hc
+
+theorem pshort_dec : passDecrypt toyPrims C10decEx.pw [1,2,3] = ([], .ioRead) := by decide
+
+example : (runPassDecrypt toyPrims (pworldOut [1,2,3]) (some (str "in")) (some (str "out")) true).world = pworldOut [1,2,3] :=
+  (C13_no_release_no_touch_pass toyPrims _ (some (str "in")) (some (str "out")) true (by decide) (openInput_file rfl)
+    (pworldOut_pass _) pshort_dec).2.2
+
+theorem ptrail_dec : passDecrypt toyPrims C10decEx.pw (C10decEx.file ++ [99]) = ([[7,8]], .unexpectedData) := by decide
+
+example : (runPassDecrypt toyPrims (pworldOut (C10decEx.file ++ [99])) (some (str "in")) (some (str "out")) true).world.file (str "out") =
+    some [7,8] :=
+  (C13_prefix_pass toyPrims _ (some (str "in")) (str "out") true (by decide) (openInput_file rfl) (pworldOut_pass _)
+    ptrail_dec (by simp) (by simp)).2
+
+example : (runPassDecrypt toyPrims (pworldOut C10decEx.file) (some (str "in")) (some (str "out")) true).world.file (str "out") =
+    some [7,8,9] :=
+  (C13_success_creates_pass toyPrims _ (some (str "in")) (str "out") true (by decide) (openInput_file rfl) (pworldOut_pass _)
+    file_dec).2
+
+/-- the theorems agree with evaluating the model -/
+example : (runPassDecrypt toyPrims (pworldOut (C10decEx.file ++ [99])) (some (str "in")) (some (str "out")) true).exit = 1 ∧
+    (runPassDecrypt toyPrims (pworldOut (C10decEx.file ++ [99])) (some (str "in")) (some (str "out")) true).world.file (str "out") =
+      some [7,8] ∧
+    (runPassDecrypt toyPrims (pworldOut [1,2,3]) (some (str "in")) (some (str "out")) true).world.file (str "out") = some [42] := by
+  decide
+
+/-! encrypt, password encrypt, key generate -/
+
+/-- refused key exchange: primitives whose DH yields the rejected all-zero value (C05) -/
+example (input : Bytes) : runEncrypt toyPrimsZeroDh ⟨pK, eK⟩ (worldOut input) (some (str "in")) name name (some (str "out"))
+    (some (str "kr")) true = fail (worldOut input) (.crypto .other) :=
+  C13_untouched_encrypt_zero_dh toyPrimsZeroDh ⟨pK, eK⟩ (worldOut input) (some (str "in")) name name (some (str "out"))
+    (some (str "kr")) true (by decide) (openInput_file (worldOut_file_in _)) (worldOut_openKeyring _) getKey_ks
+    (Keyring.decodePk_encodePk skA skA_len) (worldOut_unlock _) (rfl : toyPrimsZeroDh.pub eK = some eK) (Or.inl rfl)
+
+example (input : Bytes) : ∃ c, (c ∈ earlyCauses ∨ c = .crypto .other) ∧
+    runEncrypt toyPrimsZeroDh ⟨pK, eK⟩ (worldOut input) (some (str "in")) name name (some (str "out")) (some (str "kr")) true =
+      fail (worldOut input) c ∧ _ :=
+  C13_untouched_encrypt toyPrimsZeroDh ⟨pK, eK⟩ (worldOut input) (some (str "in")) name name (some (str "out")) (some (str "kr")) true
+    (by
+      rw [C13_untouched_encrypt_zero_dh toyPrimsZeroDh ⟨pK, eK⟩ (worldOut input) (some (str "in")) name name (some (str "out"))
+        (some (str "kr")) true (by decide) (openInput_file (worldOut_file_in _)) (worldOut_openKeyring _) getKey_ks
+        (Keyring.decodePk_encodePk skA skA_len) (worldOut_unlock _) (rfl : toyPrimsZeroDh.pub eK = some eK) (Or.inl rfl)]
+      decide)
+
+/-- password encrypt without a password -/
+example (rnd : Rand) (input : Bytes) := C13_untouched_pass_encrypt toyPrims rnd (pworldOut input) (some (str "in")) (some (str "out"))
+  false (by decide)
+
+/-- key generate with an empty name on stdin, into an existing keyring file: the file is left alone -/
+example (rnd : Rand) (input : Bytes) : (runKeyGen toyPrims rnd (worldOut input) (some (str "kr")) true).world = worldOut input := by
+  obtain ⟨c, _, _, h, _⟩ := C13_untouched_keygen toyPrims rnd (worldOut input) (some (str "kr")) true (by decide)
+  exact h
+
+end C13Ex
 
 end Kestrel
